@@ -468,6 +468,19 @@ def rk_order(cls):
 RK_DOC_ORDER = {'IMEXEuler': 1, 'IMEXEulerStifflyAccurate': 1, 'ARK54': 5, 'ARK548L2SA': 5, 'ARK32': 3, 'ARK2': 2, 'ARK3': 3}
 
 
+def rk_second_step(L, dt2, u0):
+    """another step on the same level / sweeper object with the step size dt2"""
+    P = L.prob
+    L.params.dt = dt2
+    L.status.time = 1.0
+    L.u[0] = P.dtype_u(P.init)
+    L.u[0][0] = u0
+    L.f[0] = P.eval_f(L.u[0], 1.0)
+    L.sweep.update_nodes()
+    L.sweep.compute_end_point()
+    return L.uend[0]
+
+
 def rk_case(rep, name):
     from harness.c02_rk import rk_run, rk_tables
     import pySDC.implementations.sweeper_classes.Runge_Kutta as rk
@@ -481,6 +494,9 @@ def rk_case(rep, name):
         sp.DENOMS.clear()
         U, uend, sec, L = rk_run(cls, 1.0, SymReal(1), SymReal(zI), SymReal(zE), imex)
         den = [d != 0 for d in sp.DENOMS]
+        # a second step on the SAME sweeper object with another step size (what every adaptive run does)
+        uend2 = rk_second_step(L, 0.5, SymReal(1))
+        den2 = [d != 0 for d in sp.DENOMS]
     finally:
         Ctx.cur = None
     rep.paths += 1
@@ -507,6 +523,30 @@ def rk_case(rep, name):
 
         env = {'dt': 1.0, 'u0_0': 1.0, 'lamI': float(core.model_value(model, zI)), 'lamE': float(core.model_value(model, zE))}
         rk_triage(rep, cls, name, 'end_point', env, imex)
+    # the step with dt = 1/2 on the same object is the stability function at z/2
+    half = rv(Fraction(1, 2))
+    spec2 = z3.substitute(spec, (zI, zI * half), (zE, zE * half))
+    res, model = prove(R(uend2) == spec2, den2, timeout_ms=180000, name=f'rk/{name}:second-step-with-other-step-size')
+    rep.ob(f'rk/{name}:second-step-with-other-step-size', res)
+    if res == 'sat':
+        rep.replayed += 1
+        last = None
+        for env in ({'zI': float(core.model_value(model, zI)), 'zE': float(core.model_value(model, zE))}, {'zI': -0.5, 'zE': 0.125}, {'zI': -1.0, 'zE': 0.5}):
+            try:
+                _, _, _, Lf = rk_run(cls, 1.0, 1.0, env['zI'], env['zE'], imex, float_mode=True)
+                got = float(np.real(rk_second_step(Lf, 0.5, 1.0)))
+                _, one, _, _ = rk_run(cls, 0.5, 1.0, env['zI'], env['zE'], imex, float_mode=True)
+                exp = float(np.real(one))
+            except Exception as e:  # (e.g. a singular stage matrix at the solver's model)
+                last = f'{type(e).__name__}: {e}'
+                continue
+            last = {'env': env, 'observed': got, 'expected': exp}
+            if abs(got - exp) > 1e-9 * (1 + abs(exp)):
+                rep.violation(f'{PID}/rk/{name}/second-step-other-dt', f'rk/{name}: second step with dt = 0.5 on a sweeper that has taken a step with dt = 1 gives {got!r}, a fresh sweeper gives {exp!r} (lambda = {env})',
+                              {'task': ['rk', name], 'env': env, 'observed': got, 'expected': exp, 'second_step': True})
+                break
+        else:
+            rep.unreproduced(f'rk/{name}:second-step', last)
     # (ii) Taylor coefficients of the real step function
     alphas = [Fraction(1)] if not imex else [Fraction(a, 4) for a in range(0, 5)] + [Fraction(2), Fraction(-1), Fraction(3)]
     for al in alphas[: (p or 1) + 2]:
@@ -532,6 +572,19 @@ def replay(path):
         got = float_step(t[1], t[2], t[3], t[4], tuple(t[5]), t[6], t[7], d['env'])
         print('observed', got, 'expected', d['expected'])
         bad = abs(got - d['expected']) > 1e-8 * (1 + abs(d['expected']))
+    elif t[0] == 'rk' and d.get('second_step'):
+        from harness.c02_rk import rk_run, rk_tables
+        import pySDC.implementations.sweeper_classes.Runge_Kutta as rk
+
+        cls = getattr(rk, t[1])
+        imex = rk_tables(cls)[4]
+        env = d['env']
+        _, _, _, Lf = rk_run(cls, 1.0, 1.0, env['zI'], env['zE'], imex, float_mode=True)
+        got = float(np.real(rk_second_step(Lf, 0.5, 1.0)))
+        _, one, _, _ = rk_run(cls, 0.5, 1.0, env['zI'], env['zE'], imex, float_mode=True)
+        exp = float(np.real(one))
+        print('second step (dt 0.5) on a used sweeper', got, 'fresh sweeper', exp)
+        bad = abs(got - exp) > 1e-9 * (1 + abs(exp))
     else:
         from harness import c02 as c2
 
